@@ -255,6 +255,59 @@ func pkgOfType(T types.Type) *types.Package {
 	return nil
 }
 
+// reassumeRootInvs: after a call that may have changed the heap, the objects the function under verification
+// received as parameters satisfy their type invariants again (visible-state discipline: every function checks the
+// invariants of all objects it wrote at its exits and of all objects it hands to a callee). Objects this
+// function itself has written to are excluded: their invariant may be broken right now.
+func (ex *Exec) reassumeRootInvs(st *State) {
+	rf := ex.rootFrame
+	if rf == nil || ex.specMode != 0 || ex.invDepth > 0 || (rf.ct != nil && rf.ct.NoInv) {
+		return
+	}
+	if ex.ownWrites > 0 {
+		// an invariant may relate several objects (a registry and its entries): once this function has written
+		// anywhere, only what it proves itself is known
+		return
+	}
+	var cands []Val
+	for _, p := range rf.fn.Params {
+		if v, ok := rf.vals[p]; ok {
+			cands = append(cands, v)
+		}
+	}
+	// registers holding objects obtained earlier (results of calls, heap loads)
+	var regs []ssa.Value
+	for k := range rf.vals {
+		if _, isParam := k.(*ssa.Parameter); !isParam {
+			regs = append(regs, k)
+		}
+	}
+	sort.Slice(regs, func(a, b int) bool { return regs[a].Name() < regs[b].Name() })
+	for _, k := range regs {
+		cands = append(cands, rf.vals[k])
+	}
+	seen := map[string]bool{}
+	n := 0
+	for _, v := range cands {
+		if len(v.L) == 0 || len(v.L) > 2 || v.T == nil {
+			continue
+		}
+		ref := v.L[len(v.L)-1]
+		if seen[ref] || ex.isFreshTerm(ref) || ref == "0" {
+			continue
+		}
+		t, _ := ex.typeInvTerm(rf, st, v)
+		if t == "" || t == "true" {
+			continue
+		}
+		seen[ref] = true
+		if n++; n > 16 {
+			break
+		}
+		ex.assume(st.pc, t)
+	}
+}
+
 func (ex *Exec) assumeTypeInv(fr *Frame, st *State, v Val) {
 	t, _ := ex.typeInvTerm(fr, st, v)
 	if t != "" && t != "true" {
@@ -991,6 +1044,9 @@ func (ex *Exec) applyContract(fr *Frame, st *State, fn *ssa.Function, ct *FuncCo
 	}
 	if nres == 1 {
 		res.T = fn.Signature.Results().At(0).Type()
+	}
+	if !ct.Pure {
+		ex.reassumeRootInvs(st)
 	}
 	return res
 }
